@@ -128,6 +128,81 @@ def axioms_for(terms):
     return ax
 
 
+USE_RATNORM = True
+RATNORM = {"identities": 0, "discharged": 0, "denominator_queries": 0, "fallbacks": 0}
+
+
+def _denominators(terms):
+    seen, out = set(), {}
+    stack = list(terms)
+    while stack:
+        e = stack.pop()
+        if e.get_id() in seen:
+            continue
+        seen.add(e.get_id())
+        if z3.is_app(e):
+            if e.decl().kind() == z3.Z3_OP_DIV:
+                d = e.arg(1)
+                if not z3.is_rational_value(d) and not z3.is_int_value(d):
+                    out[d.get_id()] = d
+                elif z3.is_rational_value(d) and d.numerator_as_long() == 0:
+                    out[d.get_id()] = d
+            stack.extend(e.children())
+    return list(out.values())
+
+
+def _ratnorm_pass(c, hyps, timeout_ms, t0):
+    from . import ratnorm
+    eqs = ratnorm.split_equalities(c)
+    if not eqs:
+        return None
+    extra = []
+    for a, b in eqs:
+        if a.get_id() == b.get_id():
+            continue
+        ok, nz = ratnorm.identical(a, b)
+        if not ok:
+            return None
+        extra += nz.nonzero_terms
+    RATNORM["identities"] += 1
+    dens = _denominators([t for ab in eqs for t in ab])
+    have = {d.get_id() for d in dens}
+    dens += [t for t in extra if t.get_id() not in have]
+    if dens:
+        s = z3.Solver()
+        s.set("timeout", min(timeout_ms, 8000))
+        cond = [d == 0 for d in dens]
+        terms = hyps + cond
+        ab = abstract_ufs(terms)
+        if ab is not None:   # abstraction first: unsat there is unsat here
+            sa = z3.Solver()
+            sa.set("timeout", min(timeout_ms, 4000))
+            for h in ab[:len(hyps)]:
+                sa.add(h)
+            sa.add(z3.Or(ab[len(hyps):]))
+            RATNORM["denominator_queries"] += 1
+            if sa.check() == z3.unsat:
+                dt = time.perf_counter() - t0
+                STATS.query_time += dt
+                STATS.queries["unsat"] += 1
+                RATNORM["discharged"] += 1
+                return Verdict("unsat", None, dt, "ratnorm+z3")
+        for h in hyps:
+            s.add(h)
+        for a_ in axioms_for(terms):
+            s.add(a_)
+        s.add(z3.Or(cond))
+        RATNORM["denominator_queries"] += 1
+        if s.check() != z3.unsat:
+            RATNORM["fallbacks"] += 1
+            return None
+    dt = time.perf_counter() - t0
+    STATS.query_time += dt
+    STATS.queries["unsat"] += 1
+    RATNORM["discharged"] += 1
+    return Verdict("unsat", None, dt, "ratnorm+z3" if dens else "ratnorm")
+
+
 class Verdict:
     __slots__ = ("status", "model", "time", "solver")
 
@@ -169,6 +244,12 @@ def valid(claim, pc=(), assumptions=(), timeout_ms=20000, want_model=True, weak_
     neg = z3.Not(c)
     t0 = time.perf_counter()
     abs_model = None
+    # (0) equalities that are field identities over the atoms: clear denominators
+    #     (ratnorm) and let z3 decide only that no denominator can vanish
+    if USE_RATNORM:
+        v0 = _ratnorm_pass(c, hyps, timeout_ms, t0)
+        if v0 is not None:
+            return v0
     ab = abstract_ufs(hyps + [neg])
     if ab is not None:
         sa = z3.Solver()
